@@ -258,6 +258,8 @@ def c08_steps(tier, seed):
         chan("chan-random", "random", 1000 if q else 50000, seed + 12),
         chan("chan-starve", "starve", 1000 if q else 20000, seed + 13),
         native("chan-istep", ["w_step", "--mode", "chan", "--shards", 16, "--stride", 6 if q else 1, "--seed", seed + 1], timeout=600),
+        # ordering downgrades (and a weak compare-exchange that fails spuriously) are invisible natively on x86
+        miri("chan-miri-q", "m_channel", ["--shape", 5 * seed + 2], 16 if q else 256, timeout=400 if q else 3000),
     ]
     if not q:
         st += [miri("chan-miri-%d" % sh, "m_channel", ["--shape", sh + 8 * seed], 128, timeout=2000) for sh in range(0, 8)]
@@ -301,6 +303,11 @@ def iter_steps(tier, seed, extra=0):
     step = [native("scan-istep", ["w_step", "--mode", "scan", "--shards", 16, "--seed", seed + extra], timeout=600)]
     if extra:
         step.append(native("dual-istep", ["w_step", "--mode", "dual", "--shards", 16, "--seed", seed + extra], timeout=600))
+        # faithful records under the declared orderings: the hand-over of a record from handler to consumer under Miri
+        step.append(miri("raw-slot-miri", "m_iter", ["--shape", seed], 8 if q else 256, timeout=600 if q else 3600))
+        step.append(miri("chan-miri-q", "m_channel", ["--shape", 7 * seed + 3], 8 if q else 128, timeout=400 if q else 3000))
+    else:
+        step.append(native("backlog", ["w_step", "--mode", "backlog", "--seed", seed], timeout=300))
     return step + [native("iter-%d" % i, ["w_iter", "--instances", 15, "--rounds", 30 if q else 300, "--seed", seed * 100 + i + extra],
                    timeout=300 if q else 1800) for i in range(n)] + \
            ([] if q else [asan("iter-asan", ["w_iter", "--instances", 15, "--rounds", 60, "--seed", seed + 5 + extra], leaks=False, timeout=1800)])
@@ -532,7 +539,7 @@ def c05_steps(tier, seed):
     q = tier == "quick"
     return [native("model-histories", ["w_model", "--seed", seed, "--procs", 16, "--ops", 20000 if q else 300000], timeout=600 if q else 3000),
             native("model-concurrent-owners", ["w_model", "--seed", seed + 3, "--procs", 8, "--threads", 3, "--ops", 15000 if q else 200000], timeout=600 if q else 3000),
-            native("fresh-and-race-remove", ["w_model", "--seed", seed + 4, "--procs", 4, "--race-remove", "--ops", 1500 if q else 30000], timeout=600 if q else 3000),
+            native("fresh-and-race-remove", ["w_model", "--seed", seed + 4, "--procs", 6, "--race-remove", "--ops", 1500 if q else 30000], timeout=600 if q else 3000),
             native("restart-under-fire", ["w_reg", "--mode", "stress", "--phase", "none", "--rounds", 10 if q else 100, "--round-ms", 60, "--seed", seed + 9])]
 
 
